@@ -212,10 +212,19 @@ func typeName(t *parser.Type) string {
 	}
 
 	name := t.Name
+	// cpp_type follows the container keyword of map and set, and the closing '>' of list
+	cppType := ""
+	if t.CppType != "" {
+		cppType = " cpp_type " + strings.ReplaceAll(joinQuotes(t.CppType), `"`, "##34;")
+	}
 	if t.KeyType != nil && t.ValueType != nil {
-		name = fmt.Sprintf("%s<%s,%s>", t.Name, typeName(t.KeyType), typeName(t.ValueType))
+		name = fmt.Sprintf("%s%s<%s,%s>", t.Name, cppType, typeName(t.KeyType), typeName(t.ValueType))
 	} else if t.ValueType != nil && t.KeyType == nil {
-		name = fmt.Sprintf("%s<%s>", t.Name, typeName(t.ValueType))
+		if t.Name == "list" {
+			name = fmt.Sprintf("%s<%s>%s", t.Name, typeName(t.ValueType), cppType)
+		} else {
+			name = fmt.Sprintf("%s%s<%s>", t.Name, cppType, typeName(t.ValueType))
+		}
 	}
 
 	if t.Annotations != nil {
